@@ -425,10 +425,23 @@ def corr_sarif(ctx, tmp):
                              {"files": [json.loads(Path(p).read_text()) for p, _ in perm], "impl": im})
     # detect_sarif_tools
     reqs, impls = [], []
+    # files in which one run is malformed (its `tool.driver` has no name, or `tool` has no driver: the detectors raise
+    # on it) next to well-formed runs, in either order: a run nobody recognises must not hide its neighbours
+    odd = []
+    for i in range(ctx.pick(12, 60)):
+        good = {"tool": {"driver": {"name": rng.choice(["Semgrep OSS", "CodeQL", "Snyk"])}}, "results": []}
+        bad = rng.choice([{"tool": {"driver": {}}, "results": []}, {"tool": {}, "results": []}])
+        docs = rng.choice([[bad, good], [good, bad], [bad], [bad, good, bad]])
+        p = tmp / f"odd-{uuid.uuid4().hex}.sarif"
+        p.write_text(json.dumps({"version": "2.1.0", "runs": docs}))
+        odd.append((str(p), [{"toolName": (d["tool"].get("driver") or {}).get("name")} for d in docs]))
     for _ in range(ctx.pick(60, 300)):
         g = rng.sample(files, rng.choice([1, 1, 2, 2, 3]))
         if rng.random() < 0.5:  # bias towards single-run, distinct-tool files so that the non-error branch is frequent
             g = [f for f in g if len(f[1]) == 1][:2] or g[:1]
+        if rng.random() < 0.3:
+            g = [rng.choice(odd)] + g[:1]
+            rng.shuffle(g)
         names = {p: f"f{i}" for i, (p, _) in enumerate(g)}
 
         def go():
@@ -445,6 +458,17 @@ def corr_sarif(ctx, tmp):
         # the order of the detectors (entry-point order of the installed metadata) is not part of the contract
         mo = {"map": sorted(mo["map"])} if "map" in mo else {"duplicate": True}
         ctx.corr_case("detect_tools", rq, im, mo, "map" in im and bool(im["map"]), branch="detect-" + ("dup" if "duplicate" in im else "ok"))
+        # independent reading of the property: a file is read for a tool when one of its runs names that tool; a second
+        # hit for the same tool is refused
+        hits = {"semgrep": [], "codeql": []}
+        for f in rq["files"]:
+            for nm in f["runs"]:
+                if isinstance(nm, str) and "semgrep" in nm.lower(): hits["semgrep"].append(f["name"])
+                if isinstance(nm, str) and "CodeQL" in nm: hits["codeql"].append(f["name"])
+        want = {"duplicate": True} if any(len(v) > 1 for v in hits.values()) else {"map": sorted([k, v] for k, v in hits.items() if v)}
+        ctx.search_case("detect-tools", rq, bool(hits["semgrep"] or hits["codeql"]))
+        if im != want:
+            ctx.fail({"kind": "detect-tools"}, f"detect_sarif_tools on files with runs {[f['runs'] for f in rq['files']]}: got {im}, the runs name {want}", {"request": rq, "impl": im, "expected": want})
 
 
 def corr_dd(ctx, tmp):
